@@ -86,6 +86,7 @@ type Interp struct {
 	deferCall bool
 	syncMaps map[*Value]*Map
 	lateCache map[*ssa.Return][]bool
+	lateStoreCache map[*ssa.Store]bool
 }
 
 func NewInterp(prog *ssa.Program, cfg *RunConfig) *Interp {
@@ -818,6 +819,11 @@ func (in *Interp) exec(fr *frame, ins ssa.Instruction) {
 		}
 		in.mapSet(m, in.get(fr, x.Key), copyVal(in.get(fr, x.Value)))
 	case *ssa.Store:
+		if in.lateStore(fr.fn, x) {
+			// result of `return v, f()` in a function with defers: gc reads v after the call
+			in.storeTo(in.get(fr, x.Addr), in.load(in.get(fr, x.Val.(*ssa.UnOp).X)))
+			return
+		}
 		in.storeTo(in.get(fr, x.Addr), in.get(fr, x.Val))
 	case *ssa.TypeAssert:
 		set(x, in.typeAssert(x, in.get(fr, x.X).(Iface)))
@@ -980,6 +986,84 @@ func (in *Interp) lateLoads(fn *ssa.Function, ret *ssa.Return) []bool {
 	}
 	if any {
 		res = out
+	}
+	return res
+}
+
+// lateStore reports whether st is the synthesized store of a plain-variable
+// result of a return statement whose later results contain calls (functions
+// with defers store results before running the defers); see lateLoads.
+func (in *Interp) lateStore(fn *ssa.Function, st *ssa.Store) bool {
+	u, ok := st.Val.(*ssa.UnOp)
+	if !ok || u.Op != token.MUL || !st.Pos().IsValid() {
+		return false
+	}
+	var name string
+	switch a := u.X.(type) {
+	case *ssa.Alloc:
+		name = a.Comment
+	case *ssa.FreeVar:
+		name = a.Name()
+	default:
+		return false
+	}
+	if name == "" {
+		return false
+	}
+	if in.lateStoreCache == nil {
+		in.lateStoreCache = map[*ssa.Store]bool{}
+	}
+	if r, ok := in.lateStoreCache[st]; ok {
+		return r
+	}
+	res := false
+	defer func() { in.lateStoreCache[st] = res }()
+	syn := fn.Syntax()
+	if syn == nil {
+		return false
+	}
+	var stmt *ast.ReturnStmt
+	ast.Inspect(syn, func(n ast.Node) bool {
+		if stmt != nil {
+			return false
+		}
+		if rs, ok := n.(*ast.ReturnStmt); ok && rs.Return == st.Pos() {
+			stmt = rs
+			return false
+		}
+		return true
+	})
+	if stmt == nil || len(stmt.Results) < 2 {
+		return false
+	}
+	for i, e := range stmt.Results {
+		for {
+			if p, ok := e.(*ast.ParenExpr); ok {
+				e = p.X
+				continue
+			}
+			break
+		}
+		id, ok := e.(*ast.Ident)
+		if !ok || id.Name != name {
+			continue
+		}
+		for j := i + 1; j < len(stmt.Results); j++ {
+			found := false
+			ast.Inspect(stmt.Results[j], func(n ast.Node) bool {
+				if _, ok := n.(*ast.CallExpr); ok {
+					found = true
+				}
+				if _, ok := n.(*ast.FuncLit); ok {
+					return false
+				}
+				return !found
+			})
+			if found {
+				res = true
+				return res
+			}
+		}
 	}
 	return res
 }
